@@ -447,6 +447,16 @@ def resolve(model: RefDir, op):
         items = _term_for(model, tn, r[1:6])
         if items is None:
             return None
+        int_terms = getattr(model, 'int_terms', None)
+        force_int = kind == 'term_unit' and int_terms is not None and \
+            r[10] % 5 == 0
+        if force_int and int_terms and r[9] % 2 and \
+                int_terms[-1] in model.types:
+            # (for the type that got such a unit before: the quotient of
+            # the two scales is a quotient of two plain ints)
+            items2 = _term_for(model, int_terms[-1], r[1:6])
+            if items2 is not None:
+                tn, items = int_terms[-1], items2
         if r[6] % 5 == 0:
             # hour / second next to the rest: two different units of one
             # type whose exponents cancel - the dimension stays, the scale
@@ -469,6 +479,9 @@ def resolve(model: RefDir, op):
             for j in range(1 + r[9] % 2):
                 nums.append([_pick(NUMS, r[6] + 7 * j),
                              [1, -1, -1, 2, -2, 1][(r[10] + j) % 6]])
+        if force_int:
+            # a plain int as the only numeric element of the term
+            nums = [[_pick([x for x in NUMS if x['t'] == 'int'], r[6]), 1]]
         target = tn
         expect = 'accept'
         near = [d for d in getattr(model, 'term_defs', [])
@@ -857,6 +870,10 @@ def apply(model: RefDir, act, info=None):
         model.add_unit(act['sym'], act['type'],
                        model.term_factor(act['items'], k), 'term',
                        bvec=bvec, num=num)
+        if getattr(model, 'int_terms', None) is not None and \
+                act.get('nums') and all(
+                    spec['t'] == 'int' and e > 0 for spec, e in act['nums']):
+            model.int_terms.append(act['type'])
         if not hasattr(model, 'term_defs'):
             model.term_defs = []
         model.term_defs.append({kk: act.get(kk) for kk in
